@@ -5,6 +5,7 @@ An invariant over the recorded HTML sink of simulated validation runs whose data
 segments) contain < > & quotes and blanks.  Parsed with the stdlib HTML parser
 and compared with the tapped error tree and the source text.
 """
+import re
 from html.parser import HTMLParser
 
 import core
@@ -202,6 +203,57 @@ def check_html(case, text, r, out):
             return
 
 
+    # segment-level findings that the engine files on the interchange (a stray segment between envelope segments, a reader error
+    # of an envelope segment itself) are still errors "reported for a segment": shown next to a segment they can belong to
+    for e in r.errors:
+        if e.level != 'isa' or e.code != '024' or not (e.msg or '').startswith('Segment '):
+            continue
+        msg = norm(e.msg)
+        mm = re.match(r'Segment (\S+?)\*', e.msg) if 'not found' in e.msg else None
+        ok = False
+        for n, (idx, t) in enumerate(seg_lines):
+            sid = tk.segs[n].id
+            if mm and sid != mm.group(1):
+                continue
+            if not mm and sid not in ('ISA', 'GS', 'ST', 'GE', 'IEA') and not tk.segs[n].raw.lstrip('\r\n').startswith(' '):
+                continue
+            lo = seg_lines[n - 1][0] if n > 0 else -1
+            hi = seg_lines[n + 1][0] if n + 1 < len(seg_lines) else len(segs)
+            if any(msg in t2 for k2, t2 in segs[lo + 1:hi] if k2 == 'error'):
+                ok = True
+                break
+        if not ok:
+            out.violate('errors', 'error-not-shown|isa024-segment', 'the segment-level finding %r (filed on the interchange) is not shown next to any segment it can belong to' % e.msg[:120])
+            return
+    # element errors of an envelope header/trailer pair are shown next to the segment their message names, and not next to its partner
+    env_lines = {}
+    for n, (idx, t) in enumerate(seg_lines):
+        env_lines.setdefault(tk.segs[n].id, []).append(n)
+    for e in r.errors:
+        if e.level != 'ele' or e.seg_id not in ('ISA', 'GS', 'ST'):
+            continue
+        mm = re.search(r'\((ISA|IEA|GS|GE|ST|SE)\d\d', e.msg or '')
+        if not mm:
+            continue
+        own = mm.group(1)
+        partner = {'ISA': 'IEA', 'IEA': 'ISA', 'GS': 'GE', 'GE': 'GS', 'ST': 'SE', 'SE': 'ST'}[own]
+        msg = norm(e.msg)
+
+        def shown_at(sid):
+            for n in env_lines.get(sid, []):
+                lo = seg_lines[n - 1][0] if n > 0 else -1
+                hi = seg_lines[n + 1][0] if n + 1 < len(seg_lines) else len(segs)
+                if any(msg in t2 for k2, t2 in segs[lo + 1:hi] if k2 == 'error'):
+                    return True
+            return False
+        if not shown_at(own):
+            out.violate('errors', 'error-not-shown|envelope-ele|%s' % own, 'element error %r is not shown next to any %s segment' % (e.msg[:110], own))
+            return
+        twin = [x for x in r.errors if x is not e and x.level == 'ele' and norm(x.msg or '').replace(partner, own) == msg]
+        if shown_at(partner) and not twin and not any(abs(a - b) == 1 for a in env_lines.get(own, []) for b in env_lines.get(partner, [])):
+            out.violate('errors', 'error-misattributed|envelope-ele|%s' % own, 'element error %r of the %s is printed next to a %s segment too' % (
+                e.msg[:110], own, partner))
+            return
     # element errors of the set header/trailer themselves (ST02, SE01 ...) are shown next to the ST or the SE line
     tree_sets = [(ii, gi, si) for ii, isa in enumerate(r.struct) for gi, gs in enumerate(isa['gs']) for si, _ in enumerate(gs['st'])]
     src_sets = [s_ for g_ in WL.source_groups(case['doc']) for s_ in g_['sets']]
